@@ -107,6 +107,8 @@ func infoMapPath(p string) bool {
 
 func runC16(c *Ctx, r *Report) {
 	c16Options(c, r)
+	// counts are per file: per-file decoder state (perfile.go)
+	perFileRule(c, r, "C16-R4-per-file-counts", []string{"unknownFields", "unknownMessages"}, "the unknown-message and unknown-field counts of a chained file include those of the files before it")
 
 	roots, _ := c.rootFuncs(decodeRoots)
 	ri := c.reach(roots)
